@@ -263,10 +263,14 @@ claim('C11',
       "_initialize_covariance / _compute_error_propagation_matrices; (c) compensation and sd formulas GENERATED from "
       "_compute_feedforward_result invert sim.perturb_pva's error definition; (d) for any number of steps and any "
       "dimensions, with positive-definite P0, R_k, Qd_k, the recursion's (x_N, P_N) is the solution of the one-shot "
-      "weighted-least-squares (Gauss-Markov) problem of the stacked system (MathComp, closed under the global context). "
-      "Partial: optimality for the singular Qd of the real system and floating-point agreement are supported by an "
-      "independent one-shot square-root Gauss-Markov solve on the implementation (all result fields, margin >= 1000x) "
-      "and a bit-exact call-trace correspondence.",
+      "weighted-least-squares (Gauss-Markov) problem of the stacked system; and the same without any inverse of Qd for "
+      "the real system's rank-deficient process noise: x_k+1 = Phi_k x_k + Gamma_k w_k with arbitrary Gamma_k (Qd = "
+      "Gamma Gamma^T merely PSD), Phi_k invertible, P0 and R_k PD - the cost-to-arrive of the batch objective over "
+      "(x_0, w) equals sum nu^2 + |y - xhat_N|^2 weighted by P_N^-1 (lower bound for every (x_0, w) + attainment), "
+      "MathComp, closed under the global context. Partial: that scipy's expm gives an invertible Phi and a Gram-matrix Qd "
+      "are hypotheses (C08); floating-point agreement is supported by an independent one-shot square-root Gauss-Markov "
+      "solve of exactly that noise-parametrised problem on the implementation (all result fields, margin >= 1000x) and a "
+      "bit-exact call-trace correspondence.",
       COMMON_NOTE + "Matrix tracer gen_mx.py and tools/reg/c11.py validated each run on 24 model configurations.",
       "Rocq/MathComp proof (induction over schedules and steps) on generated matrix terms + data-flow model; call-trace correspondence",
       "DESIGN.md 4/C11")
